@@ -249,6 +249,9 @@ func CheckC19(c *Ctx) {
 	c.closeHelpers()
 	c.decodeTargets()
 	c.errorOrientation("reader/error-orientation", "asset", "helper")
+	c.errorsLookedAt("reader/error-dropped", map[string]string{}, "asset", "helper")
+	c.errorFallThrough("reader/error-fallthrough", "asset", "helper")
+	c.jsonArrayOpen("reader/json-array", 2, "asset", "helper")
 	run.Floor("error_tests", 30)
 	if ok := panicSourcesSelfTest(); !ok {
 		run.Break("the panic-source detector no longer finds its built-in example")
